@@ -50,9 +50,12 @@ func VfC06Inbound() {
 	}
 	inst := &vfRInst{id: id, cfg: cfg, builder: frame.NewFrameBuilder(), tunDev: &tun.Device{SendFrame: make(chan frame.Frame, 1)}}
 	inst.st = state.VfNewState(&state.VfInstance{Id: id, Cfg: cfg}, &m.PublicAddress{IP: peer})
-	enc := state.VfEncSession(vf.NewAEAD(kTrafficIn), vf.NewAEAD(42))
-	enc.VfSeqStateEnc()
-	inst.st.VfPeerSession(peer).SetEncryptionSession(enc)
+	hasKeys := vf.Bool() // the sender's session may have lost (or never had) its end-to-end keys
+	if hasKeys {
+		enc := state.VfEncSession(vf.NewAEAD(kTrafficIn), vf.NewAEAD(42))
+		enc.VfSeqStateEnc()
+		inst.st.VfPeerSession(peer).SetEncryptionSession(enc)
+	}
 	r := &Router{instance: inst, connStates: make(map[connStateKey]*connStateEntry)}
 	r.ErrorPing = NewErrorPingHandler(r)
 	traffic := vf.Bool()
@@ -119,6 +122,12 @@ func VfC06Inbound() {
 		}
 		vf.Reach("delivered")
 	} else {
+		if src == peer && !hasKeys {
+			// C14: traffic under keys this router does not have is answered with an error ping
+			// (which makes the sender clear its session and set up again), never silently dropped
+			vf.Assert(vf.Count("errorping") == 1, "traffic-without-keys-not-answered-with-error-ping")
+			vf.Reach("no-keys-error-ping")
+		}
 		vf.Reach("dropped")
 	}
 }
